@@ -47,7 +47,9 @@ def gen_cases(rng, tier):
         # first dump, dumped again; other data into the same directory
         # (loading a JSON dump back is the separate known finding C03.json_field_order: reload only for csv)
         mode = 'fresh' if (z or fmt == 'excel') else rng.pick(['fresh', 'fresh', 'reload', 'samedir'] if fmt == 'csv' else ['fresh', 'samedir'])
-        cases.append({'kind': 'dump', 'pkg': rows_enc_pkg(pkg), 'format': fmt, 'zip': z, 'mode': mode,
+        # rows the dumper's own validator drops (validator_options with a dropping handler) are neither written nor counted
+        bad = rng.pick([0, 0, 0, 1, 2]) if fmt != 'excel' else 0
+        cases.append({'kind': 'dump', 'pkg': rows_enc_pkg(pkg), 'format': fmt, 'zip': z, 'mode': mode if not bad else 'fresh', 'bad': bad,
                       'counters': rng.randrange(len(COUNTERS)), 'hashpath': rng.chance(0.3), 'pretty': rng.chance(0.5)})
     return cases
 
@@ -78,11 +80,15 @@ def dump_once(case, target, source=None, extra=0):
     res = []
     for i, rows in enumerate(case['pkg']):
         rr = rows_dec(rows) + [{'id': 1000 + j, 't': 'more', 'n': None} for j in range(extra)]
+        for j in range(case.get('bad', 0)):
+            rr.insert(min(len(rr), 1 + j), {'id': 'not-a-number-%d' % j, 't': 'bad', 'n': None})
         res.append({'name': 'r%d' % i, 'fields': [{'name': 'id', 'type': 'integer'}, {'name': 't', 'type': 'string'},
                                                     {'name': 'n', 'type': 'number'}], 'rows': rr})
     kw = {'format': case['format'], 'add_filehash_to_path': case['hashpath'], 'pretty_descriptor': case['pretty']}
     if COUNTERS[case['counters']] is not None:
         kw['counters'] = dict(COUNTERS[case['counters']])
+    if case.get('bad'):
+        kw['validator_options'] = {'on_error': DF.schema_validator.drop}
     step = DF.dump_to_zip(target, **kw) if case['zip'] else DF.dump_to_path(target, **kw)
     with quiet():
         dp, stats = Flow(source if source is not None else Src(res), step).process()
